@@ -18,6 +18,9 @@ F = {
 }
 
 DISHONEST = {"tmpl:div_i", "tmpl:math.log"}
+# C02-N7: the parent is an f-string (process_concat) on a dialect that spells concatenation `||`
+# (Model/SqlCompat.v known_concat_part; of the two executable dialects only sqlite: concat_fine_except_parts_next_to_bars)
+NO_CONCAT_FUNCTION = {"sqlite"}
 
 
 def triple_class(tr, dialect=None):
@@ -26,6 +29,8 @@ def triple_class(tr, dialect=None):
     p, site, c = tr
     if c in DISHONEST:
         return F["F5"]
+    if p == "concat" and dialect in NO_CONCAT_FUNCTION:
+        return F["N7"]
     return None
 
 
